@@ -28,6 +28,9 @@ FIXED_DOCS = [
     {"a": []}, {"a": [[]]}, {"a": {"a": {"a": 1}}}, [[1, 2], [3, [4]]], {"a": [{"b": []}, {"b": [[]]}]}, 5, "s", [], {},
 ]
 
+PAREN_FORMS = ['a.(b)', 'a.(b.c)', '(a.b)', '(a.b).c', '(a).b.c', 'a.(b.[c])', 'a.([b])', 'a.(b)[]', 'a.b.[c]', 'a.[b]', 'a.[b.c]', 'a.(b.{"k": c})', 'a.($.b)', 'a.(b.c)[]', '(a.b.c)', 'a.((b).c)',
+               'a.(b.c).$count($)', 'a.[b].$count($)', 'a.(b.[c]).$count($)', '$count(a.(b.c))', 'a.(b)[0]', '(a.b)[0]', 'a.(b[0])', 'a.(b.c[0])', '[a.(b.c)]', 'a.(b.c).$string()', 'a.{"v": (b.c)}.v']
+
 def steps_pool(rng):
     names = NAMES[:3]
     return names + ['`%s`' % n for n in names] + ['*', '**', '(a.b)', '(b)', '[a]', '[a, b]', '[b]', '{"k": a}', '{"k": b}',
@@ -59,7 +62,7 @@ def cases(tier, seed):
                 add(p, d, ('ex', 'unordered' if unordered else 'ordered'))
                 add(p + '[]', d, ('ex', 'unordered' if unordered else 'ordered'))
     # systematic nested-array shapes: T ::= {"b": n} | {"b": [n, n]} | {} | {"b": {"c": n}} | [T, ...]; document {"a": T}
-    leaves = [{'b': 1}, {'b': [2, 3]}, {}, {'b': {'c': 4}}, {'c': 5}]
+    leaves = [{'b': 1}, {'b': [2, 3]}, {}, {'b': {'c': 4}}, {'c': 5}, {'b': []}, {'b': [[6, 7]]}, {'b': {'c': []}}, {'b': {'c': [[8, 9]]}}, {'b': [{'c': 1}, {'c': [2]}]}]
     def shapes(depth):
         if depth == 0:
             return list(leaves)
@@ -85,6 +88,10 @@ def cases(tier, seed):
         d = {'a': renumber(t)}
         for e in ('a.b', 'a.b[]', 'a.b.c', '$count(a.b)', 'a.*'):
             add(e, d, ('nested-shape', 'unordered' if '*' in e else 'ordered'))
+        # the same selections written with parenthesised sub-paths and constructor steps: a parenthesised step is ONE step
+        # whose value is mapped like any other; an array-constructor step keeps each result as a unit
+        for e in (rng.sample(PAREN_FORMS, 4) if tier == 'quick' else PAREN_FORMS):
+            add(e, d, ('nested-shape', 'paren'))
         add('b', d['a'], ('nested-shape',))
         add('b[]', d['a'], ('nested-shape',))
     # random paths of 1..6 steps
